@@ -91,7 +91,13 @@ func init() {
 		return nil
 	})
 	reg(nd("Cover"), func(ex *Exec, fn *ssa.Function, a []Value) Value { ex.cover(tagOf(a[0])); return nil })
-	reg(nd("Note"), func(ex *Exec, fn *ssa.Function, a []Value) Value { ex.run.note(tagOf(a[0])); return nil })
+	reg(nd("Note"), func(ex *Exec, fn *ssa.Function, a []Value) Value {
+		if t, ok := a[0].(*Term); ok && t.IsLit() {
+			ex.run.note(t.S)
+		}
+		return nil
+	})
+	reg(nd("Debugf"), func(ex *Exec, fn *ssa.Function, a []Value) Value { return nil })
 	reg(nd("And"), func(ex *Exec, fn *ssa.Function, a []Value) Value { return And(a[0].(*Term), a[1].(*Term)) })
 	reg(nd("Or"), func(ex *Exec, fn *ssa.Function, a []Value) Value { return Or(a[0].(*Term), a[1].(*Term)) })
 	reg(nd("Not"), func(ex *Exec, fn *ssa.Function, a []Value) Value { return Not(a[0].(*Term)) })
@@ -182,7 +188,7 @@ func init() {
 		base := fmt.Sprintf("tok%d", k)
 		c := &carrier{claims: a[0], alg: a[1].(*Term), kid: a[2].(*Term), nsig: ex.concreteInt(a[3], "Token nsig")}
 		c.tok = ex.fresh(base, SSeq, "env")
-		ex.assume(Ge(SeqLen(c.tok), IntLit(5)))
+		ex.assume(Not(Eq(c.tok, StrLit(""))))
 		for i := 0; i < 3; i++ {
 			c.parts[i] = UF("jwtpart", SSeq, c.tok, IntLit(int64(i)))
 		}
